@@ -7,7 +7,7 @@ COMMON_ASSUMPTIONS = [
     "checks build /repo's working tree through the module replace directive, with -tags verif",
 ]
 
-HOOK_COMMITS = []
+HOOK_COMMITS = ["e364d764e802b6068fdf9985cfa7cb243dd54f15"]
 
 NOT_APPLICABLE = {}
 
@@ -109,6 +109,76 @@ CHECKS = {
         "technique": "property-based testing (rapid): stateful generation biased to index hand-overs, invariant scan + reference model",
         "tests": [
             {"name": "TestC06", "quick": 2400, "thorough": 200000},
+        ],
+    },
+    "C02": {
+        "rule": "each case = a generated schema and a history of 2-12 transactions; two thirds of them get a failure injected at a drawn "
+                "position for a drawn cause (unknown table/column/op, unsupported op, malformed uuid, ill-typed value, duplicate "
+                "explicit uuid, immutable column, invalid mutator, division by zero, wait that times out, dangling strong reference, "
+                "emptied min-1 weak reference, duplicate index value). The database under test sees every transaction, a twin only the "
+                "ones expected to commit. Oracles: rows (Database.List of every table) and reference index (GetReferences of every row) "
+                "unchanged by a failed transaction; reply shape (results up to the failing one / all results + one error for commit-time "
+                "rejection); results, rows and reference index of every later transaction identical on both databases; the update "
+                "returned for a failed transaction is never committed. Non-trivial = failure at position >=1 after an insert/update/"
+                "mutate/delete of the same transaction, or a commit-time failure; distinct = hash of (schema kinds, cause@position "
+                "sequence).",
+        "assumptions": COMMON_ASSUMPTIONS + [
+            "the 'no monitor is notified' clause is checked at wire level by the C07 L2 check (raw monitoring peers); here the "
+            "database layer is checked: a failed Transact must leave List/GetReferences untouched and Commit is never reached",
+            "failures the implementation detects in its validation pass (unknown table/column, malformed insert uuid, operations "
+            "without table) are reported in the first result: the position is not compared for those causes",
+        ],
+        "level_text": "exploration: generated histories with injected failures at every position for 14 causes, snapshot equality and a "
+                      "never-saw-the-failure twin as differential oracle",
+        "level_note": "trusts Database.List/GetReferences as observation points and refdb for the expected position of natural failures",
+        "technique": "property-based testing (rapid): fault-injected stateful histories, snapshot invariants + twin differential",
+        "tests": [
+            {"name": "TestC02", "quick": 3000, "thorough": 240000},
+        ],
+    },
+    "C15": {
+        "rule": "reference-heavy schemas and histories of 1-8 transactions in which most inserts carry a uuid-name; names are used in "
+                "every uuid-typed position the generators know (row scalar/optional/set/map-key/map-value, where on _uuid and on "
+                "reference columns, mutation arguments including map-delete key sets), before and after the defining insert, with "
+                "explicit and server-assigned uuids, and sometimes two inserts claim one name. refdb binds each name to the uuid the "
+                "implementation reports for the insert; after every commit all stored values must equal the model's (every use resolved "
+                "to the row actually inserted), no stored uuid-typed value may still be a name, string columns holding the same text "
+                "are untouched, clashing names are rejected. Non-trivial = a name used in a collection, condition or mutation "
+                "position or before its definition; distinct = hash of (schema kinds, operation sequence).",
+        "assumptions": COMMON_ASSUMPTIONS + [
+            "a name is only offered for reference columns of the table of its insert (known finding cross-table-uuid); a set never "
+            "holds a name together with the explicit uuid bound to it",
+        ],
+        "level_text": "exploration: generated transactions with symbolic names in every uuid position, compared in full with the reference model",
+        "level_note": "trusts refdb's name resolution (a two-pass substitution over canonical values)",
+        "technique": "property-based testing (rapid): stateful generation biased to named inserts, reference model",
+        "tests": [
+            {"name": "TestC15", "quick": 4000, "thorough": 300000},
+        ],
+    },
+    "C19": {
+        "rule": "three generators. TestC19Decode: for each of 16 wire types a valid encoding is generated structurally and 1-3 structural "
+                "corruptions are applied (replace a node by one of ~70 hostile fragments, drop, retype, duplicate, swap set/map/uuid tags, "
+                "extreme numbers), or the encoding of another type / a hostile constant is fed; json.Unmarshal (and re-encoding of "
+                "whatever decoded) must return under recover(). TestC19Txn: valid generated transactions against a populated database "
+                "are corrupted the same way at JSON level (plus ~45 incomplete/degenerate operations spliced in), decoded and executed: "
+                "no panic, a failed request leaves every table unchanged, Commit never fails after Transact succeeded, a select on "
+                "every table still answers. TestC19Wire (L2): the same requests are sent raw to a server followed by echo. thorough adds "
+                "native go fuzzing of the decoders. Non-trivial = every executed case (each is a distinct corrupted input); distinct = "
+                "hash of (target, input text).",
+        "assumptions": COMMON_ASSUMPTIONS + [
+            "a wait without timeout (or with a positive one) is not sent: RFC 7047 5.2.6 lets it block, and the single-threaded "
+            "server cannot be woken by another transaction; the timeout member is protected from corruption",
+            "sets that list an element twice in the request are stored as such (not a crash property)",
+        ],
+        "level_text": "exploration: hundreds of thousands of structurally corrupted encodings and transactions per run, panics caught by "
+                      "recover() inside the property, state and liveness checked after each; coverage-guided fuzzing in the thorough tier",
+        "level_note": "a recovered panic anywhere below json.Unmarshal / Transact is the violation; rapid is seeded, native fuzzing is not "
+                      "(saved crashers are the reproducible unit)",
+        "technique": "property-based testing (rapid) with structural JSON corruption + native go fuzzing (thorough)",
+        "tests": [
+            {"name": "TestC19Decode", "quick": 120000, "thorough": 8000000},
+            {"name": "TestC19Txn", "quick": 6000, "thorough": 400000},
         ],
     },
 }
